@@ -7,6 +7,10 @@ ENGINES={
  "lexmc":("harness/src/lexmc.rs","exhaustive prefix-tree exploration of all strings up to a length bound through the real lexer"),
 }
 CHECKS={
+ "C17":dict(engine="progmc",category="exploration",
+   text="Complete enumeration of operator/protocol dispatch: 6 arithmetic operators x 8 left operand classes (object implementing, throwing koto.unimplemented, throwing something else, lacking the metakey; number, string, list, plain map) x 4 right operand classes, in binary form, repeated 300 times in one frame, and in compound form with/without @op= and @op; every subset of the 6 comparison metakeys x 6 operators x 3 other operands plus derived results for every @</@== outcome; every subset of size <= 2 (thorough 3) of 11 protocol metakeys x 15 operations; key lookup through own data / @meta / @base chains of depth 2 and metamaps shared through with_meta; and the same for a host-defined object (declared with the repository's derive macros, implemented-operation set given by a bitmask) on either side. Every metakey function prints its name and operands. Differential against the reference interpreter (whose host-object model is a map object with the equivalent metakeys), plus the internal-stack invariant (hook H1).",
+   note="Trusted: kref's dispatch table (written from the guide's sections on operators and metakeys) and the renderer. Undocumented corners (<=/> derived without @==, tuple patterns against objects without @size/@index, map+map with metamaps) are skipped, counted in the evidence.",
+   technique="bounded-exhaustive program enumeration + differential against a reference model (every case replayed on the implementation)"),
  "C16":dict(engine="progmc",category="exploration",
    text="Complete product of 13 hint positions (let, multi-let, typed wildcard over list and iterator sources, for arguments, function arguments incl. nested, return types on implicit/explicit/early return, generator yield types, match arms incl. nested and map patterns, typed catch) x 20 hint names x optional/non-optional x 21 runtime values (every value kind, generator functions, objects with @type, @base chains of depth 1 and 2, callable and plain objects). Every program is compiled and run with enable_type_checks on and off; the reference interpreter (type rules written from the guide) runs in the same mode and all observations must agree, which decides both 'errors exactly when documented' and 'disabling changes nothing else'.",
    note="Trusted: kref's type rules and the renderer. Combinations the guide leaves open (Iterable/Indexable on maps with metamaps, Iterable on unbounded ranges, Callable on generator functions) are not generated or not compared.",
